@@ -332,7 +332,9 @@ func callVerticesInLoop(g *core.Graph, head *core.V, suffix string) []callV {
 	body := g.ReachFrom(succ(head, core.EdgeTrue), true, core.AvoidVs(head))
 	var out []callV
 	for _, cv := range callVerticesSuffix(g, suffix) {
-		if body[cv.V] {
+		// in the loop: reached from the head and leading back to it (code
+		// after a break or a jump out of the body is not part of the loop)
+		if body[cv.V] && g.ReachFrom(cv.V, false, nil)[head] {
 			out = append(out, cv)
 		}
 	}
@@ -839,7 +841,50 @@ func ruleRunLengthBounds(c *core.Ctx, rule string) {
 						}
 						k, ok := core.IntConst(info, s.Rhs[i])
 						if !ok {
-							o.FailAt(fn.Site(s, ""), "%s: %s is set to a non-constant value", c.Prog.Pos(s.Pos()), field.Name())
+							// a local that carries the count: a copy of the field, constants within
+							// the range, and increments under a guard that keeps it below 128
+							verdict := "unknown"
+							if lobj, isVar := core.ObjOf(info, s.Rhs[i]).(*types.Var); isVar && !lobj.IsField() {
+								verdict = "ok"
+								for _, dv := range defVertices(g, lobj) {
+									switch d := dv.AST.(type) {
+									case *ast.AssignStmt:
+										if len(d.Lhs) != len(d.Rhs) || d.Tok != token.ASSIGN && d.Tok != token.DEFINE {
+											verdict = "unknown"
+											continue
+										}
+										for j, dl := range d.Lhs {
+											if core.ObjOf(info, dl) != lobj {
+												continue
+											}
+											if dsel, isSel := ast.Unparen(d.Rhs[j]).(*ast.SelectorExpr); isSel && info.ObjectOf(dsel.Sel) == field {
+												continue
+											}
+											if dk, isK := core.IntConst(info, d.Rhs[j]); isK && dk >= 0 && dk <= 128 {
+												continue
+											}
+											verdict = "unknown"
+										}
+									case *ast.IncDecStmt:
+										if d.Tok != token.INC {
+											continue
+										}
+										bound := core.Formula{Fn: fn, Atoms: []core.Atom{{Expr: &ast.BinaryExpr{X: d.X, Op: token.LEQ, Y: &ast.BasicLit{Kind: token.INT, Value: "127"}}}}}
+										holds, counter, decided := c.Prog.Implies(core.Formula{Fn: fn, Atoms: g.DominatingAtoms(dv)}, bound)
+										if decided && !holds {
+											o.FailAt(fn.Site(d, ""), "%s: the run can grow beyond 128 bytes: the guards allow %s before the increment of %s, which is stored into %s", c.Prog.Pos(d.Pos()), counter, lobj.Name(), field.Name())
+											verdict = "failed"
+										} else if !decided && verdict == "ok" {
+											verdict = "unknown"
+										}
+									default:
+										verdict = "unknown"
+									}
+								}
+							}
+							if verdict == "unknown" {
+								o.Unrec("%s: %s is set to the computed value %s: whether it stays within 128 is not decided", c.Prog.Pos(s.Pos()), field.Name(), core.ExprStr(s.Rhs[i]))
+							}
 						} else if k > 128 || k < 0 {
 							o.FailAt(fn.Site(s, ""), "%s: %s is set to %d", c.Prog.Pos(s.Pos()), field.Name(), k)
 						}
@@ -1072,6 +1117,36 @@ func ruleLZWEarlyChange(c *core.Ctx) {
 				why = append(why, c.Prog.Pos(st.AST.Pos())+": written only under "+c.Prog.FormulaString(core.Formula{Atoms: atoms})+" (not for "+counter+")")
 			}
 		}
+		if !okAny && len(stores) > 1 {
+			// several stores that cover the case together: every return reached without
+			// passing one of them is an error return or lies under OffByOne
+			reach := g.ReachFrom(g.Entry, true, core.AvoidVs(stores...))
+			covered, positive := true, false
+			for _, r := range g.Returns() {
+				if !reach[r] {
+					continue
+				}
+				rs := r.AST.(*ast.ReturnStmt)
+				if len(rs.Results) > 0 && !core.IsNil(info, rs.Results[len(rs.Results)-1]) {
+					continue // an error is returned
+				}
+				atoms := g.DominatingAtoms(r)
+				under, _, dec := c.Prog.Implies(core.Formula{Fn: fn, Atoms: atoms}, core.Formula{Fn: fn, Atoms: []core.Atom{{Expr: off}}})
+				if dec && under {
+					continue
+				}
+				covered = false
+				if not, _, dec2 := c.Prog.Implies(core.Formula{Fn: fn, Atoms: atoms}, need); dec2 && not {
+					positive = true
+				}
+			}
+			if covered {
+				okAny = true
+			} else if !positive {
+				o.Unrec("/EarlyChange is written at %d places, none of which covers OffByOne == false alone, and the returns that pass none of them were not shown to lie under OffByOne: %s", len(stores), strings.Join(why, "; "))
+				okAny = true
+			}
+		}
 		if !okAny {
 			o.Fail("/EarlyChange 0 is not written for every filter with OffByOne == false: %s; the rebuilt filter then uses the default EarlyChange 1 and cannot decode the data", strings.Join(why, "; "))
 		}
@@ -1112,13 +1187,14 @@ func ruleCCITTNoEOLInGroup4(c *core.Ctx) {
 			o.Count(1)
 			o.At(fn.Site(cv.Call, "EOL code"))
 			var atoms []core.Atom
+			aliases := fn.FieldAliases() // k := w.K
 			for _, a := range g.DominatingAtoms(cv.V) {
-				if strings.Contains(c.Prog.Src(a.Expr), ".K") {
+				if strings.Contains(c.Prog.Src(a.Expr), ".K") || strings.Contains(core.ExprStrAliased(fn, a.Expr), ".K") {
 					atoms = append(atoms, a)
 				}
 			}
-			want := core.Formula{Fn: fn, Atoms: []core.Atom{{Expr: &ast.BinaryExpr{X: kSel, Op: token.GEQ, Y: intLit(0)}}}}
-			holds, counter, decided := c.Prog.Implies(core.Formula{Fn: fn, Atoms: atoms}, want)
+			want := core.Formula{Fn: fn, Subst: aliases, Atoms: []core.Atom{{Expr: &ast.BinaryExpr{X: kSel, Op: token.GEQ, Y: intLit(0)}}}}
+			holds, counter, decided := c.Prog.Implies(core.Formula{Fn: fn, Subst: aliases, Atoms: atoms}, want)
 			if !decided {
 				core.Undecided("condition of the EOL code not decided: %s", counter)
 			}
